@@ -29,6 +29,9 @@ func init() {
 		var r, s secp.ModNScalar
 		r.SetByteSlice(unhx(a[0]))
 		s.SetByteSlice(unhx(a[1]))
+		if m := sigObjectStable(secp.NewSignature(&r, &s), bytesRepeat(0x5a, 32)); m != "" {
+			return m
+		}
 		sig := secp.NewSignature(&r, &s)
 		out := hx(sig.Serialize())
 		if m := sigObjectStable(sig, bytesRepeat(0x5a, 32)); m != "" {
